@@ -66,8 +66,8 @@ func (ad *adapter) FlushAll() int                     { return ad.a.FlushAll() }
 func (ad *adapter) SetLimits(pc, tot int) {
 	ad.a.MaxBufferedPagesPerConnection, ad.a.MaxBufferedPagesTotal = pc, tot
 }
-func (ad *adapter) PagesUsed() int { return ad.a.VerifPagesUsed() }
-func (ad *adapter) PoolConns() int { n, _, _ := ad.pool.VerifStats(); return n }
+func (ad *adapter) PagesUsed() int                      { return ad.a.VerifPagesUsed() }
+func (ad *adapter) PoolConns() int                      { n, _, _ := ad.pool.VerifStats(); return n }
 func (ad *adapter) Queued() (int, int, time.Time, bool) { return ad.pool.VerifQueued() }
 
 func init() {
